@@ -139,6 +139,14 @@ func main() {
 			emitLine(cols[0], cols[1], cols[2], args, safeEval(p, cols[2], args))
 			out.Flush()
 		}
+	case "scenario":
+		// one server scenario in this process, observations flushed token by token (see c07.go)
+		a := os.Args[3:]
+		if len(a) != 3 || a[2] == "-" {
+			os.Stdout.WriteString("BAD-CASE")
+			return
+		}
+		runServerScenario(a[0] == "1", a[1], strings.Split(a[2], ","), os.Stdout)
 	case "probe":
 		if len(os.Args) != 4 {
 			fmt.Fprintln(os.Stderr, "usage: vh probe out.lean out.json")
